@@ -294,8 +294,10 @@ class Check:
             "coverage": cov, "assumptions": self.assumptions,
             "wall_s": round(time.time() - self.t0, 2), "violations": len(new),
         }
-        os.makedirs(os.path.join(VERIF, "evidence"), exist_ok=True)
-        with open(os.path.join(VERIF, "evidence", self.pid + ".json"), "w") as f:
+        # bin/coverage runs the workloads against a gcov build to see what they reach: that is not evidence
+        evdir = os.path.join(VERIF, "evidence") if os.environ.get("VERIF_COVERAGE") != "1" else os.path.join(self.rundir, "coverage-evidence")
+        os.makedirs(evdir, exist_ok=True)
+        with open(os.path.join(evdir, self.pid + ".json"), "w") as f:
             json.dump(ev, f, indent=1, sort_keys=True, default=str)
             f.write("\n")
         for k in sorted(known_hit):
